@@ -11,7 +11,7 @@
 enum {
   O_NEW, O_DEL, O_PUSH, O_POP, O_PUSH_AT, O_POP_AT, O_SET, O_GET, O_REM, O_MEM,
   O_CONCAT, O_RESIZE, O_SORT, O_ASSIGN, O_COPY, O_TWIN, O_SWAP, O_CHECK,
-  O_SASSIGN, O_SCONCAT, O_SREM, O_SMEM, O_SPRINT, O_BAD, O_BURST, O_VIEW, O_SWAPV, O_NOPS
+  O_SASSIGN, O_SCONCAT, O_SREM, O_SMEM, O_SPRINT, O_BAD, O_BURST, O_VIEW, O_SWAPV, O_ELEMCAT, O_NOPS
 };
 static const OpInfo OPS[O_NOPS] = {
   [O_NEW]    = { "new", 5 },      /* kind ktype vtype managed ninit */
@@ -40,6 +40,7 @@ static const OpInfo OPS[O_NOPS] = {
   [O_BAD]    = { "bad", 3 },      /* c kind x */
   [O_BURST]  = { "burst", 1 },    /* n */
   [O_SWAPV]  = { "swapv", 3 },    /* type a b : swap / copy / assign of two plain values */
+  [O_ELEMCAT] = { "elemcat", 2 }, /* cont start : in-place concat / append on a String stored inside a container */
   [O_VIEW]   = { "view", 4 },     /* c kind a b : iterate a view of a sequence (slice / zip / enumerate / filter / map / range) */
 };
 
@@ -788,6 +789,36 @@ static void do_pop_at(const Op* o) {
   g_lastop = "pop_at";
   if (i < 0) stat_add("seq.neg_pop_at", 1);
   check_cont(c, 0);
+}
+
+/* a String element / value edited in place through the pointer get() returns: the container stores Strings by value, so
+ * this is an ordinary in-contract use; the edits are chosen so that the result is again a pool string */
+static int str_index(const char* t) { for (int j = 0; j < NSTR; j++) if (!strcmp(g_strpool[j], t)) return j; return -1; }
+static void do_elemcat(const Op* o) {
+  Cont* c = pick(o->a[0]); if (!c || c->n == 0) return;
+  int seq = (c->kind == K_ARRAY || c->kind == K_LIST) && c->kt == ET_STR;
+  int map = (c->kind == K_TABLE || c->kind == K_TREE) && c->vt == ET_STR;
+  if (!seq && !map) return;
+  static const char* TR_[][2] = { { "", "a" }, { "", "b" }, { "a", "b" }, { "a", "a" }, { "a", "\xff" }, { "ab", "c" }, { "b", "a" }, { "aa", "a" }, { "hello", " world" } };
+  progress(g_opidx, cont_prop(c), "elemcat");
+  g_lastop = "elemcat";
+  for (int t = 0; t < c->n; t++) {
+    int i = (int)((((o->a[1] + t) % c->n) + c->n) % c->n);
+    int64_t* slot = seq ? &c->k[i] : &c->v[i];
+    const char* cur = strval(*slot);
+    for (int r = 0; r < 9; r++) {
+      int rr = (int)((r + (o->a[1] >> 8)) % 9); if (rr < 0) rr += 9;
+      if (strcmp(cur, TR_[rr][0]) != 0) continue;
+      char res[64]; snprintf(res, sizeof res, "%s%s", cur, TR_[rr][1]);
+      int ni = str_index(res); if (ni < 0) continue;
+      var e = seq ? get(c->obj, $I(i)) : get(c->obj, MKVAL(c->kt, c->k[i]));
+      if (o->a[1] & 1) append(e, $S((char*)TR_[rr][1])); else concat(e, $S((char*)TR_[rr][1]));
+      *slot = ni;
+      stat_add("elem.string_edited_in_place", 1);
+      check_cont(c, 0);
+      return;
+    }
+  }
 }
 
 static void do_set(const Op* o) {
@@ -1564,6 +1595,7 @@ static void exec_op(const Op* o) {
     case O_BAD: do_bad(o); break;
     case O_VIEW: do_view(o); break;
     case O_SWAPV: do_swapv(o); break;
+    case O_ELEMCAT: do_elemcat(o); break;
     case O_BURST: progress(g_opidx, "C01", "burst"); burst((int)(((o->a[0] % 64) + 64) % 64) + 2); break;
     default: break;
   }
@@ -1713,6 +1745,7 @@ static void containers_generate(Plan* p, Rng* r) {
       continue;
     }
     if (g->kind == K_TABLE || g->kind == K_TREE) {
+      if (g->vt == ET_STR && rng_chance(r, 1, 20)) { plan_add(p, O_ELEMCAT, 0, fault, ca, (int64_t)rng_below(r, 100000), 0, 0, 0, 0); continue; }
       /* modes: 0 fill with consecutive pool keys (long collision runs / ascending), 1 drain, 2 mix, 3 descending */
       int64_t kidx = mode == 0 ? seqctr++ : mode == 3 ? seqctr-- : (int64_t)rng_below(r, 96);
       if (mode == 0 || mode == 3) {
@@ -1736,6 +1769,7 @@ static void containers_generate(Plan* p, Rng* r) {
       continue;
     }
     /* sequences: modes 0 grow, 1 shrink, 2/3 mix */
+    if (g->kind != K_STRING && g->kind != K_TUPLE && rng_chance(r, 1, 25)) { plan_add(p, O_ELEMCAT, 0, fault, ca, (int64_t)rng_below(r, 100000), 0, 0, 0, 0); continue; }
     if ((focus == 18 || focus == 0) && d < 12) { plan_add(p, O_VIEW, 0, 0, ca, rng_below(r, 6), rv, (int64_t)rng_below(r, 1000), 0, 0); continue; }
     if (mode == 0) {
       if (d < 55) plan_add(p, O_PUSH, 0, fault, ca, rv, rng_below(r, 2), 0, 0, 0);
